@@ -147,3 +147,79 @@ def finish(prop, outcome, timer, level, coverage, assumptions, extra=None):
     elif code == EXIT_INCONCLUSIVE:
         print("INCONCLUSIVE property=%s (exit 2): %d reasons, first: %s" % (prop, len(outcome.inconclusive), outcome.inconclusive[0][:300]))
     return code
+
+
+def run_parser_groups(prop, tag, mods, spec_list, outcome, jobs=12, harness_timeout_s=600):
+    """Kani run over the llguidance crate overlay for the given harness modules. Adds to `outcome`; returns summary dict."""
+    from . import parser_props as pp
+    try:
+        ov = pp.prepare(tag, mods)
+    except (pp.SliceError, FileNotFoundError) as ex:
+        outcome.inconclusive.append("overlay/slice preparation failed (source anchors moved?): %s" % ex)
+        return dict(kani_wall_s=0)
+    try:
+        names = [s["name"] for s in spec_list]
+        res, logp, wall, build_failed = e1.run_kani(ov, "llguidance", names, jobs=jobs, harness_timeout_s=harness_timeout_s, stubbing=True, logname=tag)
+        if build_failed:
+            import subprocess
+            tail = subprocess.run("grep -v '^warning' %s | grep -A8 '^error' | head -60" % logp, shell=True, capture_output=True, text=True).stdout
+            outcome.inconclusive.append("kani build failed (harness no longer compiles against /repo?):\n" + tail)
+        else:
+            judge(prop, ov, "llguidance", spec_list, res, outcome)
+        return dict(kani_wall_s=round(wall, 1))
+    finally:
+        ov.cleanup()
+
+
+def run_toktrie_groups(prop, tag, want, outcome, with_svob=False, extra_specs=None, jobs=14, harness_timeout_s=600, select=None, tokenv=False):
+    from . import toktrie_props as tp
+    import os
+    from .common import VERIF
+    try:
+        ov, fams, dumped, inst = tp.prepare_overlay(tag, want, with_svob=with_svob)
+    except RuntimeError as ex:
+        outcome.inconclusive.append(str(ex)[:2000])
+        return dict(kani_wall_s=0), []
+    try:
+        specs = list(inst.specs)
+        if select is not None:
+            specs = [s for s in specs if select(s)]
+        if with_svob:
+            specs = tp.svob_specs(tier_name()) + specs
+        if tokenv:
+            ov.inject("toktrie/src/tokenv.rs", os.path.join(VERIF, "kani/toktrie/tokenv_h.rs"), "verif_kani")
+            specs += [dict(name="tokenv::verif_kani::k19_2_parse_numeric_roundtrip", expect="pass", family="K19.2"),
+                      dict(name="tokenv::verif_kani::c20_parse_numeric_arbitrary", expect="pass", family="C20")]
+        if extra_specs:
+            specs += extra_specs
+        res, logp, wall, build_failed = e1.run_kani(ov, "toktrie", [s["name"] for s in specs], jobs=jobs, harness_timeout_s=harness_timeout_s, logname=tag)
+        if build_failed:
+            import subprocess
+            tail = subprocess.run("grep -v '^warning' %s | grep -A8 '^error' | head -60" % logp, shell=True, capture_output=True, text=True).stdout
+            outcome.inconclusive.append("kani build failed (harness no longer compiles against /repo?):\n" + tail)
+        else:
+            judge(prop, ov, "toktrie", specs, res, outcome)
+        return dict(kani_wall_s=round(wall, 1)), [f for f in fams if not f.get("is_sb")]
+    finally:
+        ov.cleanup()
+
+
+def tier_name():
+    from .common import tier
+    return tier()
+
+
+def e1_coverage(outcome, samples, functions, bounds, extra=None):
+    summ = summarize(outcome)
+    cov = dict(
+        evaluations=max(1, summ["harnesses_run"]),
+        distinct_nontrivial=summ["harnesses_with_all_covers"],
+        rule="one evaluation = one Kani proof harness decided by CBMC over all symbolic inputs within its bound; non-trivial = SUCCESSFUL with every "
+             "kani::cover! witness SATISFIED (must-fail witness harnesses count as run only)",
+        samples=samples,
+        functions_encoded=functions, bounds=bounds, queries=summ["cbmc_checks"], covers="%d/%d" % (summ["covers_satisfied"], summ["covers_total"]),
+        solver_s=summ["solver_s"], symex_s=summ["symex_s"], per_harness=summ["per_harness"],
+    )
+    if extra:
+        cov.update(extra)
+    return cov
